@@ -47,7 +47,7 @@ def c02(res, tier, a):
 
 
 def c03(res, tier, a):
-    comps = _components(a, ["kernels", "modules"])
+    comps = _components(a, ["kernels", "modules", "traps"])
     with Scratch(slot()) as sc:
         ws.inject(sc)
         drv = ws.Driver(ws.build_driver(sc))
@@ -59,6 +59,9 @@ def c03(res, tier, a):
         if "modules" in comps:
             from checks import et
             cov.update(et.run_module_validity(res, tier, sc, drv))
+        if "traps" in comps:
+            from checks import et
+            cov.update(et.run_trap_freedom(res, tier, sc, drv))
         res.coverage.update(cov)
         res.coverage["states"] = max(1, sum(e["paths"] for e in cov.get("kernels_encoded", [])))
         res.coverage["transitions"] = max(1, cov.get("kernel_obligations", 0) + len(cov.get("kernels_encoded", [])))
